@@ -358,7 +358,32 @@ fn process_case(ctx: &Ctx, r: &mut Rng, corpus: &Corpus, t: &mut Tally) {
         kind = "huge_valid";
         t.add("huge_input_bytes", ctext.len() as u64);
     }
+    if r.chance(1, 25) {
+        // one enormous malformed line full of non-ASCII text (a line that ends up quoted in an error message)
+        let mut filler = String::new();
+        for _ in 0..(300 + r.usize(900)) {
+            filler.push_str(*r.pick(&["ñ", "é", "€", "日", "a", " ", "ü", "x", "ó"]));
+        }
+        let bad = format!("{}, CONSUMO, CAL, ELECTRICIDAD, {}, 10 # {}\n", r.below(9), r.pick(&["x", "1,,2", "--", "1e", "ñ"]), filler);
+        let at = ctext.lines().count().min(r.usize(8));
+        let mut ls: Vec<&str> = ctext.lines().collect();
+        let badl = bad.trim_end().to_string();
+        ls.insert(at, &badl);
+        ctext = ls.join("\n") + "\n";
+        t.count("input.very_long_malformed_non_ascii_line");
+    }
     let mut cbytes = ctext.into_bytes();
+    if r.chance(1, 25) {
+        // cut anywhere, also in the middle of a multi-byte character (a transfer that broke off)
+        let non_ascii: Vec<usize> = cbytes.iter().enumerate().filter(|(_, b)| **b >= 0xC0).map(|(i, _)| i).collect();
+        let cut = if !non_ascii.is_empty() && r.chance(2, 3) { *r.pick(&non_ascii) + 1 } else { r.usize(cbytes.len() + 1) };
+        cbytes.truncate(cut);
+        if non_ascii.is_empty() && r.chance(1, 2) {
+            // nothing non-ASCII to cut through: end the file with the first byte of a two-byte character
+            cbytes.extend_from_slice(b" # caf\xC3");
+        }
+        t.count("input.truncated_at_a_byte");
+    }
     if r.chance(1, 40) {
         // not UTF-8 at all: must end with the documented I/O error code
         let i = r.usize(cbytes.len() + 1);
